@@ -32,7 +32,7 @@ def run(ctx):
             r0.instance({"format": r["format"], "root": x})
     for r, m in missing:
         r0.violate("C20|anchors|%s" % r["pattern"][:60], "parser entry point pattern %r matches %d function(s), expected at least %d (anchor missing; fail closed)" % (r["pattern"], len(m), r["min"]))
-    rp, seen, inv = panic_rule(ctx, chk, "C20", "P-no-reachable-panic", roots, floor=500)
+    rp, seen, inv = panic_rule(ctx, chk, "C20", "P-no-reachable-panic", roots, floor=200)
     chk.analysed["reachable_functions"] = len([n for n in seen if n in F.fns])
     recursion_rule(ctx, chk, "C20", "S-no-recursion", seen)
     loops.loop_rule(ctx, chk, "C20", "T-loops-terminate", seen)
